@@ -174,15 +174,16 @@ func runC17(c *Ctx) {
 		tr.throughFields, tr.throughParams, tr.throughCalls = false, false, false
 		var udpAddr, tcpAddr []ssa.Value
 		mixed := false
-		for _, a := range nu.AnonFuncs {
-			// only the closures of the "udp" case: they return transport.DnsConn / transport.NetConn and call DialContext with a constant network
-			eachInstr(a, func(in ssa.Instruction) {
+		{
+			// only the closures of the "udp" case (also when the case body moved into a new constructor helper): they
+			// return transport.DnsConn / transport.NetConn and call DialContext with a constant network
+			eachInstrDeep(nu, func(a *ssa.Function, in ssa.Instruction) {
 				ci, ok := in.(*ssa.Call)
-				if !ok || callName(ci) != "(*net.Dialer).DialContext" {
+				if !ok || a == nu || a.Parent() == nil || callName(ci) != "(*net.Dialer).DialContext" {
 					return
 				}
 				net, _ := constString(ci.Call.Args[2])
-				addrRoots := tr.origins(ci.Call.Args[3])
+				addrRoots := tr.originsNH(ci.Call.Args[3])
 				// restrict to closures whose address is a captured local computed in NewUpstream itself (the udp case)
 				isCase := false
 				for _, r := range addrRoots {
